@@ -136,6 +136,19 @@ def suite_isim(tier: str, seed: int, mult: int) -> SuiteResult:
             ls = np.asarray(ks, dtype=_msu(n))
             cnt["narrow_dtype"] += 1
             res.evaluations += 1
+            # the from-sum forms are functions of their arguments: a vector handed to them (uint64, as np.sum gives it) is
+            # not modified, so a second statistic of the same vector is the statistic of the same counts
+            v64 = np.asarray(ks, dtype=np.uint64)
+            keep = v64.copy()
+            with np.errstate(all="ignore"):
+                first = repr(float(sim.jt_isim_from_sum(v64, n)))
+                for fn_ in (sim.jt_isim_radius_compl_from_sum, sim.jt_isim_radius_from_sum, sim.jt_isim_diameter_from_sum):
+                    fn_(v64, n)
+                again = repr(float(sim.jt_isim_from_sum(v64, n)))
+            if not np.array_equal(v64, keep) or first != again:
+                res.failures.append({"signature": "C11:from-sum-function-modifies-its-argument",
+                                     "what": f"iSIM before {first}, after the radius / diameter calls on the same vector {again}",
+                                     "case": {"ks": ks, "n": n}})
             outs = []
             for name, fn in (("isim", sim.jt_isim_from_sum), ("radius_compl", sim.jt_isim_radius_compl_from_sum),
                              ("radius", sim.jt_isim_radius_from_sum), ("diameter", sim.jt_isim_diameter_from_sum)):
@@ -169,6 +182,28 @@ def suite_isim(tier: str, seed: int, mult: int) -> SuiteResult:
                 if cen_s != cen:
                     res.failures.append({"signature": "C12:centroid-depends-on-the-dtype-of-the-count",
                                          "what": f"n={n} as {ls.dtype}: {cen_s} vs {cen}", "case": {"n": n, "ks": ks}})
+        # one large packed set through the from-fingerprints wrappers (more rows than any block-wise implementation would
+        # hold in one block: 2^26 / (8 * 256) = 32768 rows of 2048 bits), against the from-sum forms on independently
+        # accumulated column sums
+        nbig = 32768 + rng.choice([1, 5, 1000, 2791])
+        nr = np.random.default_rng(rng.randrange(2 ** 31))
+        Xbig = (nr.random((nbig, 256)) < 0.04).astype(np.uint8) * nr.integers(1, 256, size=(nbig, 256), dtype=np.uint8)
+        Xbig[-3:] = 255      # the last rows carry bits no other row has
+        col = np.zeros(2048, dtype=np.uint64)
+        for a0 in range(0, nbig, 4096):
+            col += np.unpackbits(Xbig[a0:a0 + 4096], axis=1).sum(axis=0, dtype=np.uint64)
+        cnt["large_packed_set"] = 1
+        res.evaluations += 1
+        with np.errstate(all="ignore"):
+            for name, wfn, ffn in (("isim", sim.jt_isim, sim.jt_isim_from_sum), ("diameter", sim.jt_isim_diameter, sim.jt_isim_diameter_from_sum),
+                                   ("radius", sim.jt_isim_radius, sim.jt_isim_radius_from_sum),
+                                   ("radius_compl", sim.jt_isim_radius_compl, sim.jt_isim_radius_compl_from_sum)):
+                gv, rv = fval(wfn(Xbig, input_is_packed=True, n_features=2048)), fval(ffn(col, nbig))
+                if gv != rv:
+                    res.failures.append({"signature": f"C11:wrapper-{name}-packed-differs-from-the-from-sum-form",
+                                         "what": f"{nbig} packed 2048-bit fingerprints: {gv} vs {rv} from the column sums",
+                                         "case": {"rows": nbig, "bits": 2048}})
+        del Xbig
         # wrappers on fingerprint arrays, packed and unpacked, any feature count
         for _ in range((150 if tier == "quick" else 2000) * mult):
             F = rng.choice(list(range(1, 20)) + [63, 64, 65])
@@ -409,12 +444,27 @@ def suite_bits(tier: str, seed: int, mult: int) -> SuiteResult:
             if cs_.tobytes() != cn.tobytes():
                 res.failures.append({"signature": "C12:centroid-depends-on-the-dtype-of-the-count", "what": f"n={nn} as {lsn.dtype}",
                                      "case": {"n": nn, "ks": kk}})
+            # unpacking fewer features than the bytes hold (any count, multiples of 8 included): the first columns
+            nb_ = rng.randint(1, 12)
+            Pk = np.asarray([[rng.randrange(256) for _ in range(nb_)] for _ in range(rng.randint(1, 4))], dtype=np.uint8)
+            nf_ = rng.choice([8 * rng.randint(1, nb_), rng.randint(1, 8 * nb_)])
+            cnt["unpack_truncating"] = cnt.get("unpack_truncating", 0) + 1
+            got_u = bblean.unpack_fingerprints(Pk, nf_)
+            if got_u.shape != (len(Pk), nf_) or not np.array_equal(got_u, np.unpackbits(Pk, axis=1)[:, :nf_]) \
+                    or not np.array_equal(bblean.unpack_fingerprints(Pk[0], nf_), np.unpackbits(Pk[0])[:nf_]):
+                res.failures.append({"signature": "C12:unpack-does-not-return-the-first-n_features-columns",
+                                     "what": f"{nb_} bytes per row, n_features={nf_}: shape {got_u.shape}",
+                                     "case": {"bytes": Pk.tolist(), "n_features": nf_}})
             # medoid: a member minimising the complementary similarity (exact rational reference), sets of 1..6 rows
             # with the emphasis on exactly three (the smallest set that is searched at all)
             nm = rng.choice([1, 2, 3, 3, 3, 3, 4, 5, 6])
             Fm = rng.randint(2, 24)
             base = [1 if rng.random() < 0.5 else 0 for _ in range(Fm)]
             mrows = [[b ^ (1 if rng.random() < rng.choice([0.05, 0.3, 0.6]) else 0) for b in base] for _ in range(nm)]
+            if nm >= 3 and rng.random() < 0.2:
+                # exactly one populated row, the others empty: removing it leaves only empty fingerprints
+                mrows = [[0] * Fm for _ in range(nm)]
+                mrows[rng.randrange(nm)] = [1 if rng.random() < 0.6 else 0 for _ in range(Fm - 1)] + [1]
             rng.shuffle(mrows)
             Xm = np.asarray(mrows, dtype=np.uint8).reshape(nm, Fm)
             cnt["medoid"] = cnt.get("medoid", 0) + 1
